@@ -13,14 +13,16 @@ from katdal.spectral_window import SpectralWindow
 RULE = ('(a) v4 data sets with dyadic timing attributes: capture start (incl. time_offset) exactly on, one second / a '
         'quarter second / an hour / whole days either side of each documented fix date or far from it, both CBF '
         'generations and modes, with/without CBF attributes, time_offset, preselected dump ranges given as normalised or '
-        'un-normalised slices (None, negative, overshooting ends), opened directly or through katdal.open on an RDB file: '
+        'un-normalised slices (None, negative, overshooting ends), opened directly, through katdal.open on an RDB file or '
+        'metadata-only (no chunk store): '
         'timestamps/start/end/time_offset compared exactly with the model and the spec; '
         '(b) SpectralWindow objects N in 1..9, both sidebands: channel_freqs and attributes, every subrange(first,last) '
         'incl. invalid ones, every rechannelise(M) incl. the aligned channel edges, compared exactly; '
         '(c) preselected vs fully opened data set on the same store (dumps only / channels only / both, odd and even '
         'channel counts): timestamps, freqs, channel_width, vis, flags, weights, a numeric sensor, start/end, later '
         'relative selections; freqs of both also against centre + (k - N//2) * bandwidth / N of the telstate attributes; '
-        '(d) preselect validation: fixed and random key/step forms; (e) katpoint reads the fix dates as UTC midnight. '
+        '(d) preselect validation with and without a chunk store: fixed forms, every select keyword and near misses alone '
+        'and next to a valid key, reversed ranges, random key/step forms; (e) katpoint reads the fix dates as UTC midnight. '
         'A case is non-trivial when it has >= 2 dumps/channels; distinct by its full parameter tuple.')
 ASSUMPTIONS = ['float64 arithmetic is exact on the generated (dyadic) values, so comparisons are equalities',
                'Python slice normalisation of preselect ranges (slice.indices) is taken from Python, not modelled']
@@ -45,7 +47,10 @@ def exact(x):
 def gen_timing(rng):
     kind = rng.random()
     off = rng.choice([0.0, 0.0, 0.25, -0.5, 3.0, -2.0, 86400.0, -86400.0])
-    if kind < 0.6:
+    if kind < 0.12:
+        # the capture start INCLUDING time_offset is exactly a fix date (the first capture that is NOT corrected)
+        start = rng.choice(FIX_DATES) - off
+    elif kind < 0.6:
         # the capture start INCLUDING time_offset sits at / next to a fix date
         dte = rng.choice(FIX_DATES)
         start = dte + rng.choice([-1, 0, 1, -2, 2, -7, 5, -3600, 3600, 0, -0.25, 0.25]) + rng.choice([0, 0, 0.25, 0.5]) - off
@@ -97,8 +102,10 @@ def build(t, T, F, seed, cw=None, centre=None):
         sub_pool_resources=('cbf_dev_2,sdp_1,m000,m001' if t['cmc2'] else 'cbf_1,sdp_1,m000,m001'),
         sub_product=('c856M4k' if t['cbf4k'] else 'c856M1k'),
         open_kwargs=dict(time_offset=t['off']),
+        # a ramp of 1 unit / s that covers every dump of the capture wherever time_offset and the CBF fix move it
         extra_sensors=[('anc_air_temperature',
-                        [(t['sync'] + t['first'] - 4.0, 1.0), (t['sync'] + t['first'] + 64.0, 69.0)])], **kw)
+                        [(t['sync'] + t['first'] + t['off'] - 4.0, 1.0), (t['sync'] + t['first'] + t['off'] + 68.0, 73.0)])],
+        **kw)
 
 
 def write_rdb(x):
@@ -114,12 +121,19 @@ def write_rdb(x):
 
 def open_pre(x, t, pre, via):
     """A second data set on the same store, preselected.  via: 'direct' (TelstateDataSource + VisibilityDataV4) or
-    'open' (katdal.open of an RDB file)."""
+    'open' (katdal.open of an RDB file) or 'meta' (no chunk store)."""
     if via == 'open':
         kw = dict(time_offset=t['off'])
         if pre is not None:
             kw['preselect'] = pre
         return katdal.open(write_rdb(x), **kw)
+    if via == 'meta':
+        # metadata-only data set (no chunk store): the validation in TelstateDataSource is the only line of defence
+        from katdal.datasources import TelstateDataSource
+        from katdal.visdatav4 import VisibilityDataV4
+        kw = {} if pre is None else dict(preselect=pre)
+        src = TelstateDataSource(x.view, x.cbid, x.stream, chunk_store=None, **kw)
+        return VisibilityDataV4(src, time_offset=t['off'], **kw)
     if pre is None:
         return v4.reopen(x, {}, dict(time_offset=t['off']))
     return v4.reopen(x, dict(preselect=pre), dict(preselect=pre, time_offset=t['off']))
@@ -164,20 +178,21 @@ def check_timing(ctx, t, T, a=None, b=None, via='direct', sl=None):
     x = build(t, T, 4, ctx.seed)
     case = dict(timing=timing_case(t), T=T, a=a, b=b, via=via, sl=list(sl))
     pre = None if tuple(sl) == (0, T) else dict(dumps=slice(sl[0], sl[1]))
+    n = max(b - a, 0)
     try:
-        try:
-            d = x.d if (pre is None and via == 'direct') else open_pre(x, t, pre, via)
-        except IndexError:
-            if b <= a:
-                # an empty preselection is outside the domain: rejecting it is fine
-                ctx.note_case(('timing-empty', repr(sorted(t.items())), T, tuple(sl), via), nontrivial=False)
-                ctx.count('timing:empty_rejected')
-                return
-            raise
-        n = max(b - a, 0)
+        d = x.d if (pre is None and via == 'direct') else open_pre(x, t, pre, via)
         impl_ts = [exact(v) for v in d.timestamps]
         impl = dict(ts=impl_ts, start=exact(d.start_time.secs), end=exact(d.end_time.secs), off=exact(d.time_offset),
                     dump_period=exact(d.dump_period))
+    except Exception as e:
+        if b <= a and isinstance(e, (IndexError, ValueError)):
+            # an empty preselection is outside the domain: rejecting it is fine
+            ctx.note_case(('timing-empty', repr(sorted(t.items())), T, tuple(sl), via), nontrivial=False)
+            ctx.count('timing:empty_rejected')
+            return
+        ctx.disagree('what=exception;stream=timing;via=%s;exc=%s' % (via, type(e).__name__), case, repr(e)[:300], None,
+                     'opening the data set raised on an in-domain input')
+        return
     finally:
         v4.cleanup(x)
     if ctx.model_ok:
@@ -188,7 +203,7 @@ def check_timing(ctx, t, T, a=None, b=None, via='direct', sl=None):
         s_ts = spec_py(t, a, n)
         m_ts, m_start, m_end, m_off = impl_ts, impl['start'], impl['end'], impl['off']
     if impl_ts != m_ts or impl['start'] != m_start or impl['end'] != m_end or impl['off'] != m_off:
-        ctx.disagree('what=timestamps_tie;preselect=%s' % (pre is not None), case,
+        ctx.disagree('what=timestamps_tie;preselect=%s;via=%s' % (pre is not None, via), case,
                      [float(v) for v in impl_ts[:3]] + [float(impl['start']), float(impl['end']), float(impl['off'])],
                      [float(v) for v in m_ts[:3]] + [float(m_start), float(m_end), float(m_off)],
                      'implementation timestamps/start/end/time_offset differ from the model', kind='tie')
@@ -196,7 +211,7 @@ def check_timing(ctx, t, T, a=None, b=None, via='direct', sl=None):
         if pre is not None and straddles(t, a):
             sig = 'preselect;straddles_fix_date;symptom=timestamps_shifted_by_cbf_dump'
         else:
-            sig = 'what=timestamps;preselect=%s;lite=%s;start=%s' % (pre is not None, t['cbf'] is None, where(t))
+            sig = 'what=timestamps;preselect=%s;lite=%s;start=%s;via=%s' % (pre is not None, t['cbf'] is None, where(t), via)
         ctx.disagree(sig, case, [float(v) for v in impl_ts[:3]], None,
                      'timestamps differ from sync+first+i*int+offset (-1 CBF dump before the documented fix date)',
                      spec=[float(v) for v in s_ts[:3]])
@@ -304,6 +319,25 @@ def check_spw(ctx, centre, bw, n, side, via_width=False):
                              None if got is None else [float(v) for v in got],
                              None if exp is None else [float(v) for v in exp], 'subrange differs from the model', kind='tie')
         ctx.note_case(('subrange', centre, bw, n, side, f, l, via_width), nontrivial=valid)
+        if s is not None and valid and l - f >= 2:
+            # a sub-range of the sub-range, and a re-channelisation of it, still sit on the original grid
+            f2 = ctx.rng.randint(0, l - f - 1)
+            l2 = ctx.rng.randint(f2 + 1, l - f)
+            # only channel counts whose (half) channel width is a dyadic number, so that float64 stays exact
+            ok_m = [m for m in range(1, 10) if (lambda d: d & (d - 1) == 0)((cw0 * (l - f) / (2 * m)).denominator)]
+            m2 = ctx.rng.choice(ok_m)
+            try:
+                nested = [exact(v) for v in s.subrange(f2, l2).channel_freqs]
+                r2 = s.rechannelise(m2)
+                g2 = [exact(v) for v in r2.channel_freqs]
+                edges = (g2[0] - side * cw0 * (l - f) / m2 / 2, g2[-1] + side * cw0 * (l - f) / m2 / 2, len(g2))
+            except Exception as e:
+                nested, edges = repr(e), None
+            if nested != want0[f + f2:f + l2] or edges != (want0[f] - side * cw0 / 2, want0[l - 1] + side * cw0 / 2, m2):
+                ctx.disagree('what=subrange_nested', dict(case, first=f, last=l, first2=f2, last2=l2, m2=m2),
+                             str(nested)[:200], None,
+                             'a sub-range / re-channelisation of a sub-range left the channel grid of the original',
+                             spec=[float(v) for v in want0[f + f2:f + l2]])
     lo0 = f0[0] - side * cw0 / 2
     hi0 = f0[-1] + side * cw0 / 2
     for k, m in enumerate(ms):
@@ -351,89 +385,100 @@ def check_preselect_equiv(ctx, t, T, F, dsl, csl, via='direct', cw=1.0, centre=1
                 csl=None if csl is None else list(csl), via=via, cw=cw, centre=centre)
     bw = F * cw
     want_f = [Fraction(centre) + (k - F // 2) * Fraction(bw) / F for k in range(F)]   # the property itself
+    pre = {}
+    if dsl is not None:
+        pre['dumps'] = slice(*dsl)
+    if csl is not None:
+        pre['channels'] = slice(*csl)
+    keys = '+'.join(sorted(pre))
+    empty = b <= a or d_ <= c
+    if sub is None and not empty and b - a >= 2 and d_ - c >= 2:
+        x0 = ctx.rng.randint(0, b - a - 1)
+        x1 = ctx.rng.randint(x0 + 1, b - a)
+        y0 = ctx.rng.randint(0, d_ - c - 1)
+        y1 = ctx.rng.randint(y0 + 1, d_ - c)
+        sub = [x0, x1, y0, y1]
+
+    def full_obs(ds, is_pre):
+        o = obs(ds)
+        # start/end are attributes of the data set as opened: the preselected one must bracket ITS dumps
+        o['start_end'] = np.array([ds.start_time.secs, ds.end_time.secs]) if is_pre else \
+            np.array([ds.timestamps[0] - 0.5 * t['int_time'], ds.timestamps[-1] + 0.5 * t['int_time']]) \
+            if len(ds.timestamps) else np.array([])
+        return o
+    # ---- implementation runs (any exception on an in-domain input is itself a disagreement)
+    stage = 'open_full'
     try:
         full = x.d
         f_full = [exact(v) for v in full.freqs]
-        if f_full != want_f or exact(full.channel_width) != Fraction(cw):
-            ctx.disagree('what=v4_freqs;preselect=False', case, [float(v) for v in f_full[:4]], None,
-                         'freqs / channel_width of the data set differ from center_freq + (k - N//2) * bandwidth / N',
-                         spec=[float(v) for v in want_f[:4]])
-        pre = {}
-        sel = {}
-        if dsl is not None:
-            pre['dumps'] = slice(*dsl)
-            sel['dumps'] = slice(*dsl)
-        if csl is not None:
-            pre['channels'] = slice(*csl)
-            sel['channels'] = slice(*csl)
-        try:
-            dp = open_pre(x, t, pre, via)
-        except IndexError:
-            if b <= a or d_ <= c:
-                ctx.note_case(('pre-empty', repr(sorted(t.items())), T, F, dsl, csl, via), nontrivial=False)
-                ctx.count('preselect_equiv:empty_rejected')
-                return
-            raise
+        cw_full = exact(full.channel_width)
+        a_full = spw_attrs(full.spectral_windows[0])
+        stage = 'open_preselected'
+        dp = open_pre(x, t, pre, via)
         f_pre = [exact(v) for v in dp.freqs]
-        if f_pre != want_f[c:d_] or exact(dp.channel_width) != Fraction(cw):
-            ctx.disagree('what=v4_freqs;preselect=True', case, [float(v) for v in f_pre[:4]], None,
-                         'freqs / channel_width of the preselected data set differ from those of channels c..d',
-                         spec=[float(v) for v in want_f[c:d_][:4]])
-        if ctx.model_ok and d_ > c:
-            mo = ctx.model([[17, [6, q(centre), q(bw), F, c, d_]]])[0]
-            sw = dp.spectral_windows[0]
-            if f_full != [fq(p) for p in mo[1]] or want_f != [fq(p) for p in mo[2]] or not mo[3] \
-                    or f_pre != [fq(p) for p in mo[3][1]] or spw_attrs(full.spectral_windows[0]) != model_attrs(mo[0]) \
-                    or spw_attrs(sw) != model_attrs(mo[3][0]):
-                ctx.disagree('what=v4_freqs_tie', case, [float(v) for v in f_pre[:4]],
-                             [float(fq(p)) for p in (mo[3][1] if mo[3] else [])][:4],
-                             'spectral window of the (preselected) data set differs from the model', kind='tie')
-        full.select(**sel)
-
-        def full_obs(ds, is_pre):
-            o = obs(ds)
-            # start/end are attributes of the data set as opened: the preselected one must bracket ITS dumps
-            o['start_end'] = np.array([ds.start_time.secs, ds.end_time.secs]) if is_pre else \
-                np.array([ds.timestamps[0] - 0.5 * t['int_time'], ds.timestamps[-1] + 0.5 * t['int_time']]) \
-                if len(ds.timestamps) else np.array([])
-            return o
+        cw_pre = exact(dp.channel_width)
+        a_pre = spw_attrs(dp.spectral_windows[0])
+        stage = 'select'
+        full.select(**pre)
         o1, o2 = full_obs(dp, True), full_obs(full, False)
-        for nm in NAMES:
-            if not np.array_equal(o1[nm], o2[nm]):
-                if nm in ('timestamps', 'sensor', 'start_end') and straddles(t, a):
-                    sig = 'preselect;straddles_fix_date;symptom=timestamps_shifted_by_cbf_dump'
-                else:
-                    sig = 'what=preselect_equiv;observable=%s;keys=%s' % (nm, '+'.join(sorted(pre)))
-                ctx.disagree(sig, case, np.asarray(o1[nm]).ravel()[:4].tolist(), None,
-                             'preselected data set differs from select() on the whole data set in ' + nm,
-                             spec=np.asarray(o2[nm]).ravel()[:4].tolist())
-        # later selections are relative to the preselected subset
-        if b - a >= 2 and d_ - c >= 2:
-            if sub is None:
-                x0 = ctx.rng.randint(0, b - a - 1)
-                x1 = ctx.rng.randint(x0 + 1, b - a)
-                y0 = ctx.rng.randint(0, d_ - c - 1)
-                y1 = ctx.rng.randint(y0 + 1, d_ - c)
-            else:
-                x0, x1, y0, y1 = sub
+        r1 = r2 = None
+        if sub is not None and not empty:
+            stage = 'later_select'
+            x0, x1, y0, y1 = sub
             dp.select(dumps=slice(x0, x1), channels=slice(y0, y1))
             full.select(dumps=slice(a + x0, a + x1), channels=slice(c + y0, c + y1))
-            o1, o2 = obs(dp), obs(full)
-            for nm in NAMES:
-                if nm == 'start_end':
-                    continue
-                if not np.array_equal(o1[nm], o2[nm]) and not (nm in ('timestamps', 'sensor') and straddles(t, a)):
-                    ctx.disagree('what=preselect_relative_select;observable=%s' % nm, dict(case, sub=[x0, x1, y0, y1]),
-                                 np.asarray(o1[nm]).ravel()[:4].tolist(), None,
-                                 'selection on a preselected data set is not relative to the subset: ' + nm,
-                                 spec=np.asarray(o2[nm]).ravel()[:4].tolist())
+            r1, r2 = obs(dp), obs(full)
+    except Exception as e:
+        if empty and stage == 'open_preselected' and isinstance(e, (IndexError, ValueError)):
+            ctx.note_case(('pre-empty', repr(sorted(t.items())), T, F, dsl, csl, via), nontrivial=False)
+            ctx.count('preselect_equiv:empty_rejected')
+            return
+        ctx.disagree('what=exception;stream=preselect_equiv;stage=%s;keys=%s;via=%s;exc=%s'
+                     % (stage, keys, via, type(e).__name__), case, repr(e)[:300], None,
+                     'the implementation raised on an in-domain preselection / selection')
+        return
     finally:
         v4.cleanup(x)
+    # ---- comparisons
+    if f_full != want_f or cw_full != Fraction(cw):
+        ctx.disagree('what=v4_freqs;preselect=False', case, [float(v) for v in f_full[:4]], None,
+                     'freqs / channel_width of the data set differ from center_freq + (k - N//2) * bandwidth / N',
+                     spec=[float(v) for v in want_f[:4]])
+    if f_pre != want_f[c:d_] or cw_pre != Fraction(cw):
+        ctx.disagree('what=v4_freqs;preselect=True;via=%s' % via, case, [float(v) for v in f_pre[:4]], None,
+                     'freqs / channel_width of the preselected data set differ from those of channels c..d',
+                     spec=[float(v) for v in want_f[c:d_][:4]])
+    if ctx.model_ok and not empty:
+        mo = ctx.model([[17, [6, q(centre), q(bw), F, c, d_]]])[0]
+        if f_full != [fq(p) for p in mo[1]] or want_f != [fq(p) for p in mo[2]] or not mo[3] \
+                or f_pre != [fq(p) for p in mo[3][1]] or a_full != model_attrs(mo[0]) or a_pre != model_attrs(mo[3][0]):
+            ctx.disagree('what=v4_freqs_tie', case, [float(v) for v in f_pre[:4]],
+                         [float(fq(p)) for p in (mo[3][1] if mo[3] else [])][:4],
+                         'spectral window of the (preselected) data set differs from the model', kind='tie')
+    for nm in NAMES:
+        if not np.array_equal(o1[nm], o2[nm]):
+            if nm in ('timestamps', 'sensor') and straddles(t, a):
+                sig = 'preselect;straddles_fix_date;symptom=timestamps_shifted_by_cbf_dump'
+            else:
+                sig = 'what=preselect_equiv;observable=%s;keys=%s;via=%s' % (nm, keys, via)
+            ctx.disagree(sig, case, np.asarray(o1[nm]).ravel()[:4].tolist(), None,
+                         'preselected data set differs from select() on the whole data set in ' + nm,
+                         spec=np.asarray(o2[nm]).ravel()[:4].tolist())
+    # later selections are relative to the preselected subset
+    if r1 is not None:
+        for nm in NAMES:
+            if nm == 'start_end':
+                continue
+            if not np.array_equal(r1[nm], r2[nm]) and not (nm in ('timestamps', 'sensor') and straddles(t, a)):
+                ctx.disagree('what=preselect_relative_select;observable=%s' % nm, dict(case, sub=list(sub)),
+                             np.asarray(r1[nm]).ravel()[:4].tolist(), None,
+                             'selection on a preselected data set is not relative to the subset: ' + nm,
+                             spec=np.asarray(r2[nm]).ravel()[:4].tolist())
     ctx.traces_validated += 1
     ctx.note_case(('pre', repr(sorted(t.items())), T, F, dsl, csl, via, cw, centre), nontrivial=(b - a >= 2 and d_ - c >= 2),
                   sample=dict(kind='preselect_equiv', **case))
     ctx.count('preselect_equiv')
-    ctx.count('preselect_equiv:keys=' + '+'.join(sorted(pre)))
+    ctx.count('preselect_equiv:keys=' + keys)
     ctx.count('preselect_equiv:F_%s' % ('odd' if F % 2 else 'even'))
     ctx.count('preselect_equiv:via_' + via)
 
@@ -446,9 +491,16 @@ FORMS = [dict(dumps=slice(0, 2)), dict(channels=slice(1, 3)), dict(dumps=slice(0
          dict(dumps=2), dict(channels=[0, 1]), dict(dumps=slice(0, 2, 0)), dict(Dumps=slice(0, 2)), dict(dump=slice(0, 2)),
          dict(timerange=(0, 1)), dict(scans='track'), dict(freqrange=(0, 1e9)), dict(pol='h'), dict(spw=0),
          dict(channels=slice(0, 2), dumps=slice(1, 3, -1)), dict(channels=slice(0, 4, 2), dumps=slice(1, 3)),
-         dict(dumps=slice(0, 2), channels=slice(0, 2), flags='cam'), dict(channels=np.arange(2)), {}]
-KEY_POOL = ['dumps', 'channels', 'dumps', 'channels', 'ants', 'corrprods', 'timerange', 'targets', 'channel', 'scans',
-            'compscans', 'inputs', 'pol', 'freqrange', 'weights', 'flags', 'reset', 'strict', 'subarray', 'spw']
+         dict(dumps=slice(0, 2), channels=slice(0, 2), flags='cam'), dict(channels=np.arange(2)), {},
+         # reversed ranges (a negative step that would actually select something)
+         dict(dumps=slice(None, None, -1)), dict(dumps=slice(3, 0, -1)), dict(channels=slice(3, 1, -1)),
+         dict(dumps=slice(3, None, -1), channels=slice(0, 2)), dict(dumps=slice(0, 4, 3)), dict(channels=slice(0, 4, 3))]
+# every keyword DataSet.select understands, plus near misses: alone and next to a valid key, with a VALID slice value
+KEY_POOL = ['dumps', 'channels', 'ants', 'corrprods', 'timerange', 'targets', 'target_tags', 'channel', 'scans',
+            'compscans', 'inputs', 'pol', 'freqrange', 'weights', 'flags', 'reset', 'strict', 'subarray', 'spw',
+            'dump', 'time', 'freqs', 'chans', 'Channels', 'DUMPS', 'channels ', 'baselines', 'index']
+FORMS += [{k: slice(0, 2)} for k in KEY_POOL] + [{'dumps': slice(1, 3), k: slice(0, 2)} for k in KEY_POOL] + \
+         [{k: slice(0, 2), 'channels': slice(1, 3)} for k in KEY_POOL]
 
 
 def check_preselect_form(ctx, x, pre):
@@ -456,11 +508,13 @@ def check_preselect_form(ctx, x, pre):
     steps = [([v.step] if (isinstance(v, slice) and v.step is not None) else ([] if isinstance(v, slice) else [99]))
              for v in pre.values()]
     mo = ctx.model([[17, [5, keys, steps]]])[0] if ctx.model_ok else None
-    try:
-        v4.reopen(x, dict(preselect=pre), dict(preselect=pre))
-        ok = 1
-    except (IndexError, TypeError, ValueError, AssertionError):
-        ok = 0
+    ok = 0
+    for via in ('direct', 'meta'):      # with a chunk store, and metadata only
+        try:
+            open_pre(x, dict(off=0.0), pre, via)
+            ok = 1
+        except (IndexError, TypeError, ValueError, AssertionError):
+            pass
     want = int(set(pre) <= {'dumps', 'channels'} and
                all(isinstance(v, slice) and (v.step is None or (type(v.step) is int and v.step == 1)) for v in pre.values()))
     if ok != want:
@@ -483,9 +537,13 @@ def check_preselect_validation(ctx):
             check_preselect_form(ctx, x, pre)
         for _ in range(ctx.scale(40, 400)):
             pre = {}
-            for k in rng.sample(KEY_POOL, rng.randint(1, 3)):
+            for k in rng.sample(KEY_POOL + ['dumps', 'channels'] * 6, rng.randint(1, 3)):
                 a = rng.randint(0, 2)
-                pre[k] = slice(a, rng.randint(a + 1, 4), rng.choice([None, None, 1, 1, 2, -1, 3, 0]))
+                b = rng.randint(a + 1, 4)
+                step = rng.choice([None, None, 1, 1, 2, -1, -1, 3, 0, -2])
+                if step is not None and step < 0:
+                    a, b = b - 1, (a - 1 if a > 0 else None)      # the same items, backwards
+                pre[k] = slice(a, b, step)
             check_preselect_form(ctx, x, pre)
     finally:
         v4.cleanup(x)
@@ -503,7 +561,7 @@ def run(ctx):
     for _ in range(ctx.scale(170, 1700)):
         t = gen_timing(rng)
         T = rng.randint(1, 6)
-        via = 'open' if rng.random() < 0.2 else 'direct'
+        via = rng.choice(['open'] * 4 + ['meta'] * 3 + ['direct'] * 13)
         if rng.random() < 0.45:
             sl = (0, T)
         else:
